@@ -2527,6 +2527,29 @@ func checkErrorCellOverwrite(c *Ctx, r *Report, scope map[*ssa.Function]bool) {
 				if fail == nil || pass == nil {
 					continue
 				}
+				// only where the failure is taken up on its own branch - the
+				// error is wrapped, logged or re-stored there - and yet the
+				// branch does not leave: an error used merely as a condition
+				// (`if _, err := os.Stat(p); err == nil && ...`) is a probe, not
+				// a failure that is being reported
+				handled := false
+				if len(fail.Preds) == 1 {
+					for _, in := range fail.Instrs {
+						switch x := in.(type) {
+						case *ssa.UnOp:
+							if x.Op == token.MUL && x.X == cell {
+								handled = true
+							}
+						case *ssa.Store:
+							if x.Addr == cell {
+								handled = true
+							}
+						}
+					}
+				}
+				if !handled {
+					continue
+				}
 				n++
 				k++
 				var lost *ssa.Store
@@ -2589,6 +2612,28 @@ func checkChangelogExists(c *Ctx, r *Report) {
 						if qualifiedName(o2) == "os.Stat" || guard == "" {
 							guard = qualifiedName(o2)
 						}
+					}
+				default:
+					// a module helper that is handed the path and stats it
+					sc := c2.Call.StaticCallee()
+					if sc == nil || !c.isModuleFunc(sc) || len(sc.Blocks) == 0 {
+						return
+					}
+					for i, a := range c2.Call.Args {
+						if !(a == arg || sameValue(a, arg)) || i >= len(sc.Params) {
+							continue
+						}
+						forEachInstr(sc, func(i3 ssa.Instruction) {
+							c3, ok := i3.(*ssa.Call)
+							if !ok || len(c3.Call.Args) == 0 || c3.Call.Args[0] != ssa.Value(sc.Params[i]) {
+								return
+							}
+							if o3 := calleeObj(c3); o3 != nil && (qualifiedName(o3) == "os.Stat" || qualifiedName(o3) == "os.Lstat") {
+								if qualifiedName(o3) == "os.Stat" || guard == "" {
+									guard = qualifiedName(o3)
+								}
+							}
+						})
 					}
 				}
 			})
